@@ -163,18 +163,39 @@ def conversion_layouts(ctx):
             except _re.error:
                 groups = 0
             nfields = groups if groups > 1 else pat.value.count("[0-9]*")
+    from sa.regions import UndecidedBranch
     out = {}
     for cname, cls in DEVICE_CLASSES.items():
-        ref = [None]
-        ev = MetaEval(resolve=_resolver(repo, fi), nfields=nfields)
-        ex = SegExtractor(ev, _class_decide(cls, ref))
-        ref[0] = ex
-        ev.decide = ex.decide
-        ev.local_functions = {st.name: st for st in fi.node.body if isinstance(st, ast.FunctionDef)}
-        ret = ex.run_function(fi.node.body)
-        if ret is None:
-            raise AnalysisError(f"{FN}: no conversion table is returned for {cname} metadata")
-        out[cname] = (ret, ex)
+        # a branch on a run-time predicate of the metadata (not on the device class) is explored both ways: every arm must build valid vectors
+        pending, k = [{}], 0
+        while pending:
+            choices = pending.pop(0)
+            ref = [None]
+            ev = MetaEval(resolve=_resolver(repo, fi), nfields=nfields)
+            base_decide = _class_decide(cls, ref)
+
+            def decide(t, base_decide=base_decide, choices=choices):
+                d = base_decide(t)
+                if d is None and norm(t) in choices:
+                    return choices[norm(t)][0]
+                return d
+            ex = SegExtractor(ev, decide)
+            ref[0] = ex
+            ev.decide = ex.decide
+            ev.local_functions = {st.name: st for st in fi.node.body if isinstance(st, ast.FunctionDef)}
+            try:
+                ret = ex.run_function(fi.node.body)
+            except UndecidedBranch as ub:
+                if len(choices) >= 4:
+                    raise
+                pending += [dict(choices, **{norm(ub.test): (True, ub.test)}), dict(choices, **{norm(ub.test): (False, ub.test)})]
+                continue
+            if ret is None:
+                raise AnalysisError(f"{FN}: no conversion table is returned for {cname} metadata")
+            ex.path_choices = [(src(t), v) for v, t in choices.values()]
+            ex.path_tests = [(t, v) for v, t in choices.values()]
+            out[cname if k == 0 else f"{cname}#{k}"] = (ret, ex)
+            k += 1
     ctx.shared["conv_layouts"] = (out, nfields)
     return out, nfields
 
@@ -206,7 +227,8 @@ def _layout_mismatches(ctx):
     (layouts, nfields) = conversion_layouts(ctx)
     res = []
     nmod = 0
-    for cname, (ret, ex) in layouts.items():
+    for cname_v, (ret, ex) in layouts.items():
+        cname = cname_v.split("#")[0]
         keys = ("ap", "lf") if cname != "nidq" else ("nidq",)
         for key in keys:
             if key not in ret:
@@ -221,6 +243,8 @@ def _layout_mismatches(ctx):
             for m in ms:
                 nmod += 1
                 env = dict(m)
+                if getattr(ex, "path_choices", None):
+                    m = dict(m, path=" and ".join(("" if v else "not ") + f"({t[:50]})" for t, v in ex.path_choices))
                 if cname == "nidq":
                     env["NC"] = m["MN"] + m["MA"] + m["XA"] + m["DW"]
                     env["NSYNC"] = m["DW"]
@@ -235,7 +259,11 @@ def _layout_mismatches(ctx):
                 if len(got) != len(want):
                     first.setdefault("length", (cname, key, m, None, len(got), len(want), "length", None))
                     continue
+                uniform = _uniform_claim(ex)
                 for p_ in range(len(want)):
+                    g_, w_ = got[p_], want[p_]
+                    if uniform and g_[0].startswith("VAL:") and w_[0].startswith("UP:") and g_[0][4:] == w_[0][3:]:
+                        continue   # on a path that claims all entries carry the same gains, entry 0's factor is every entry's factor (the claim itself is decided by D9)
                     if got[p_] != want[p_]:
                         part = "sync" if p_ >= len(want) - nsync else "analog"
                         if part not in first:
@@ -253,6 +281,42 @@ def _show(t):
     if k.startswith("UP:"):
         return f"{k[3:]} (IMRO entry {i})"
     return k[4:] if k.startswith("VAL:") else k
+
+
+def _uniform_claim(ex):
+    """The tests taken True on this path that claim `every IMRO entry carries the gains of the first one`: X.count(<pattern with the first entry's fields>) == <number of entries>.
+    -> list of the count calls (empty when the path makes no such claim)."""
+    out = []
+    names = getattr(ex, "entry0_names", set())
+    for t, v in getattr(ex, "path_tests", []):
+        if not v:
+            continue
+        for cmp_ in [n for n in ast.walk(t) if isinstance(n, ast.Compare) and len(n.ops) == 1 and isinstance(n.ops[0], ast.Eq)]:
+            counts = [c for c in ast.walk(cmp_) if isinstance(c, ast.Call) and call_name(c) == "count" and c.args and isinstance(c.args[0], ast.JoinedStr)
+                      and any(isinstance(f, ast.FormattedValue) and loc_name(f.value) in names for f in c.args[0].values)]
+            out += counts
+    return out
+
+
+def d9_uniform_fast_path(ctx):
+    ctx.rule("D9", "a fast path that gives every channel the first IMRO entry's gains is taken only when every entry carries those gains: the entries are counted with a pattern delimited on both sides")
+    (layouts, _) = conversion_layouts(ctx)
+    fi = ctx.repo.fn(FN)
+    seen = set()
+    for cname, (ret, ex) in layouts.items():
+        for c in _uniform_claim(ex):
+            if id(c) in seen:
+                continue
+            seen.add(id(c))
+            vals = c.args[0].values
+            left_ok = isinstance(vals[0], ast.Constant) and isinstance(vals[0].value, str) and vals[0].value != ""
+            right_ok = isinstance(vals[-1], ast.Constant) and isinstance(vals[-1].value, str) and vals[-1].value != ""
+            ctx.check(left_ok and right_ok, fi, c, c, "the counted pattern is closed by a literal on both sides",
+                      f"`{src(c)[:80]}` counts a pattern that " + ("ends" if left_ok else "starts") + " with a number field and no delimiter: a gain of 50 also matches every entry whose gain is 500 "
+                      "(or 125 / 1250 ...), so a table that mixes such gains is taken as uniform and every channel converts with the first entry's volts-per-bit - 10x off on the other channels",
+                      key="uniform-count", name_free=True)
+    if not seen:
+        ctx.note("no uniform-gain fast path in the conversion")
 
 
 def d1_sync_gain(ctx, rule_id="D1"):
@@ -703,3 +767,4 @@ def run(ctx):
     ctx.run(d6_sync_indices)
     ctx.run(d7_type_fs)
     ctx.run(d8_nidq_segments)
+    ctx.run(d9_uniform_fast_path)
